@@ -1302,3 +1302,44 @@ def r11_5(rep):
     # and its only consumer emits them in that order
     users = [x for x in prog.bodies.values() if any(c == b.path for c in prog.callees_of(x))]
     rep.check(bool(users), "opaque-array-types-consumer", "consumed by %s" % [short_fn(u) for u in users])
+
+
+# ---- added by the main session after an independently seeded change (wrapper file not rewritten when a same-sized file exists)
+FS_PROBES = ("std::fs::metadata", "std::fs::symlink_metadata", "std::fs::read", "std::fs::read_to_string", "std::fs::read_dir",
+             "std::path::Path::exists", "std::path::Path::is_file", "std::path::Path::is_dir", "std::path::Path::metadata",
+             "std::fs::File::open", "std::fs::OpenOptions::open", "std::path::Path::try_exists")
+
+
+@RULES.rule("R11.6", "outputs are written unconditionally: code generation never looks at what is already on disk", floor=1)
+def r11_6(rep):
+    """The wrapper source, the depfile and the bindings must be functions of the inputs.  An 'up to date' shortcut such as
+    `if fs::metadata(path).len() == code.len() { skip the write }` makes the wrapper file depend on what an earlier, unrelated
+    generation left at the same path."""
+    prog = rep.prog
+    roots = [p for p in prog.bodies if p.startswith("codegen::") or p.startswith("<") and " as codegen::" in p or p.startswith("deps::")]
+    rep.need(roots, "code generation functions")
+    n = 0
+    for p in roots:
+        b = prog.bodies[p]
+        for c in b.calls():
+            callee = c.get("resolved") or c.get("callee") or ""
+            if any(callee.startswith(x) for x in FS_PROBES):
+                n += 1
+                # `if !dir.exists() { create_dir_all(dir)?; }` only makes sure the output directory is there
+                iff = [a for a in b.ancestors(c) if a["k"] == "If"]
+                if iff and any(x is c for x in b.walk(iff[0]["cond"])) and "else" not in iff[0]:
+                    eff = [(x.get("callee") or "") for x in b.calls(None, iff[0]["then"])]
+                    if eff and all(e.startswith("std::fs::create_dir") or "Try" in e or e.startswith("std::ops::") or e.startswith("std::convert::") for e in eff):
+                        rep.ok("fs-probe:create-output-dir@%s" % p.split("::")[-1], "creates the missing output directory, nothing else", b.loc(c))
+                        continue
+                rep.bad("fs-probe:%s@%s" % (callee.split("::")[-1], p.split("::")[-1]),
+                        "`%s` during code generation: the output depends on the state of the file system, not only on the inputs" % callee, b.loc(c))
+    writes = 0
+    for p in roots:
+        b = prog.bodies[p]
+        for c in b.calls(lambda x: (x.get("callee") or "").startswith("std::fs::write")):
+            writes += 1
+            extra = [a for a, pol, nd in __import__("qq").guard_atoms(b, c) if "items_to_serialize" not in a and "depfile" not in a and "wrap_static_fns" not in a
+                     and not a.startswith("let ") and "is_empty" not in a]
+            rep.check(not extra, "write-unconditional@%s" % p.split("::")[-1], "the output file is written whenever it is produced (conditions: %s)" % extra[:2], b.loc(c))
+    rep.check(writes >= 1, "write-sites", "%d output writes inspected" % writes)
